@@ -1,2 +1,3 @@
+import Dawgs.Props.C08
 import Dawgs.Props.C09
 import Dawgs.Props.C16
